@@ -246,9 +246,12 @@ def run_world(facts, rep, tier, ctx, w, rep0):
     rep.floor("mutation sites checked for in-region decision", n5, 4)
 
     # R16.3 publication re-validates
+    # the function of the writer type that inserts into the map (flush / drop itself, or a private helper they call);
+    # obligations are filed under the entry point
     pubs = []
     for b in mem_bodies:
-        if b.impl and b.impl["self_ty"].endswith("WritableFile") and b.name in (("drop",) if asyncw else ("flush",)):
+        if b.impl and b.impl["self_ty"].endswith("WritableFile") and b.kind != "Closure" and \
+                any(short(x.term.callee() or "") == "HashMap::insert" for x in b.calls()):
             pubs.append(b)
     rep.floor("writer publication functions (%s)" % ("drop" if asyncw else "flush"), len(pubs), 1)
     D = Discharger(facts, load_records(os.path.join(ctx["V"], "rules", "panic_records.json")))
@@ -256,7 +259,8 @@ def run_world(facts, rep, tier, ctx, w, rep0):
         li = ls.info(b)
         tr = get_tracer(facts, b)
         wr = [a for a in li.acqs if a.mode == "write"]
-        rep.ob("R16.3", b.id, "publication takes the write lock exactly once", len(li.acqs) == 1 and len(wr) == 1,
+        bkey = D.owner_id(b)
+        rep.ob("R16.3", bkey, "publication takes the write lock exactly once", len(li.acqs) == 1 and len(wr) == 1,
                "%d acquisitions (%d write)" % (len(li.acqs), len(wr)), b.span)
         for blk in b.calls():
             t = blk.term
@@ -271,8 +275,8 @@ def run_world(facts, rep, tier, ctx, w, rep0):
                         reval = True
                     if g[0] == "bool" and "HashMap::contains_key" in txt:
                         reval = True
-                rep.ob("R16.3", b.id, "insert inside the write region", inreg, "", t.line)
-                rep.ob("R16.3", b.id, "publication re-validates the entry", reval,
+                rep.ob("R16.3", bkey, "insert inside the write region", inreg, "", t.line)
+                rep.ob("R16.3", bkey, "publication re-validates the entry", reval,
                        "re-validated" if reval else
                        "flush inserts the buffer unconditionally: if the file (or its parent directory) was removed, or "
                        "replaced by a directory, since the handle was created, the insert resurrects it / overwrites it — "
